@@ -17,9 +17,10 @@ import re
 import vlib
 from families import common
 
-SOURCES = ["drv_selfcal.c", "vt.c", "vt_alloc.c", "etermsim.c"]
+SOURCES = ["drv_selfcal.c", "vt.c", "vt_alloc.c", "etermsim.c",
+           "caleq_oracle.c"]
 EXIT_TIMEOUT = 94
-FIELDS = ["ty", "p", "topo", "nu", "lim", "pt", "et", "me"]
+FIELDS = ["ty", "p", "k", "topo", "nu", "lim", "pt", "et", "me"]
 
 
 def mc(ctx, tier):
@@ -54,9 +55,9 @@ def table(ctx):
 
 
 def row_line(row):
-    return "%d %s %d %s %d %d %d %d %d\n" % (
-        row["id"], row["ty"], row["p"], row["topo"], row["nu"], row["lim"],
-        row["pt"], row["et"], row["me"])
+    return "%d %s %d %d %s %d %d %d %d %d\n" % (
+        row["id"], row["ty"], row["p"], row.get("k", row["p"]), row["topo"],
+        row["nu"], row["lim"], row["pt"], row["et"], row["me"])
 
 
 def sample(rows, n, seed):
@@ -66,7 +67,8 @@ def sample(rows, n, seed):
     rng = random.Random(seed)
     by = {}
     for r in rows:
-        by.setdefault((r["ty"], r["topo"], r["me"]), []).append(r)
+        by.setdefault((r["ty"], r["topo"], r["me"], r["p"], r["k"]),
+                      []).append(r)
     chosen = {}
     limits = sorted({r["lim"] for r in rows})
     keys = sorted(by)
@@ -106,8 +108,11 @@ def _cfg_of(lines):
 
 
 def _cls(cfg):
-    return "%s:%s:p%s:me%s" % (cfg.get("ty"), cfg.get("topo"), cfg.get("p"),
-                               cfg.get("me"))
+    dims = "p%s" % cfg.get("p")
+    if cfg.get("k", cfg.get("p")) != cfg.get("p"):
+        dims += "k%s" % cfg.get("k")
+    return "%s:%s:%s:me%s" % (cfg.get("ty"), cfg.get("topo"), dims,
+                              cfg.get("me"))
 
 
 def issues_from_validation(ctx, res, label):
@@ -129,6 +134,8 @@ def issues_from_validation(ctx, res, label):
             props.add("C11")
         if evname == "Solve" and field == "underDetermined":
             props.add("C20")
+        if cfg.get("k", cfg.get("p")) != cfg.get("p"):
+            props.add("C20")    # rectangular determining sets: also C20's
         rp = ctx.save_replay("selfcal-%s.ndjson" % common.sig_hash(sig),
                              "".join(f["lines"]))
         issues.append(vlib.Issue(props, sig, what, replay=rp,
@@ -151,6 +158,8 @@ def issues_from_crashes(ctx, crashes, label, cfg_by_case):
                 s = ("exit%d" % c["rc"], "?")
             sig = "SelfCal:crash:%s:%s" % s
             props = {"C03", "C02"}
+            if cfg.get("k", cfg.get("p")) != cfg.get("p"):
+                props.add("C20")
             what = ("%s: driver process died in case %s (config %s): %s in %s"
                     % (label, c["case"], cfg, s[0], s[1]))
         rp = ctx.save_replay(
@@ -205,7 +214,10 @@ def run(ctx, exe, tier, seed, n=None, rows=None, timeout_s=None):
              "events": 0, "episodes": 0, "crashes": 0, "tlc_generated": 0}
     cfg_by_case = {"run:%d:%d" % (seed, i): {k: r[k] for k in FIELDS}
                    for i, r in enumerate(picked)}
-    env = {"SC_TIMEOUT": str(timeout_s or os.environ.get("SC_TIMEOUT", 60))}
+    tmpd = os.path.join(ctx.work, "tmp")
+    os.makedirs(tmpd, exist_ok=True)
+    env = {"SC_TIMEOUT": str(timeout_s or os.environ.get("SC_TIMEOUT", 60)),
+           "SC_TMP": tmpd}
     paths, crashes = common.run_sharded(
         exe, lambda a, b: ["run", tpath, str(seed), str(a), str(b)],
         len(picked), ctx.work, "selfcal", _case_index, env=env,
@@ -284,6 +296,7 @@ def replay(ctx, exe, path):
     if not cfg:
         raise vlib.MachineryError("no configuration in " + path)
     cfg.setdefault("id", row)
+    cfg.setdefault("k", cfg["p"])
     tpath = os.path.join(ctx.work, "replay-rows.txt")
     with open(tpath, "w") as fp:
         for i in range(row):
@@ -293,7 +306,8 @@ def replay(ctx, exe, path):
     open(tp, "w").close()
     crashes = common.run_cases(
         exe, lambda a, b: ["run", tpath, str(seed), str(row), str(row + 1)],
-        0, 1, tp, lambda c: 0, max_crashes=1, env={"SC_TIMEOUT": "60"})
+        0, 1, tp, lambda c: 0, max_crashes=1,
+        env={"SC_TIMEOUT": "60", "SC_TMP": ctx.work})
     issues = issues_from_crashes(ctx, crashes, "replay", {cid: cfg})
     if not crashes:
         res = vlib.validate_sharded("LMLoopTrace.tla", "LMLoopTrace.cfg", tp,
